@@ -400,7 +400,7 @@ func (vc *VC) oblige(kind, name string, props []string, guard, goal, text string
 	o := &Obligation{Name: vc.key + "/" + name, Kind: kind, Func: vc.key, Props: props, Prefix: len(vc.script),
 		Guard: guard, Goal: goal, Pos: vc.posStr(pos), Text: text, vc: vc}
 	vc.obls = append(vc.obls, o)
-	if rg, ok := vc.regions[o.Name]; ok {
+	if rg, ok := vc.regions[normOrd(o.Name)]; ok {
 		sib := *o
 		sib.Name = o.Name + "|outside-region"
 		sib.Regioned = true
@@ -474,6 +474,13 @@ func (vc *VC) analyseCFG() {
 		}
 		return hs[i].Index < hs[j].Index
 	})
+	if p := getLoopPerm(vc.key); len(p) == len(hs) { // tolerant.go: loops reordered in the source
+		nh := make([]*ssa.BasicBlock, len(hs))
+		for i := range hs {
+			nh[i] = hs[p[i]]
+		}
+		hs = nh
+	}
 	for i, h := range hs {
 		vc.loops[h].index = i
 	}
